@@ -4,6 +4,7 @@ import (
 	"encoding/json"
 	"fmt"
 	"sort"
+	"strings"
 )
 
 type idxRead struct {
@@ -396,18 +397,25 @@ func (h *harness) evaluate() *evalState {
 		var probs []problem
 		var reads map[uint64][2]int
 		var used []uint64
-		real := func(ps []problem) (n int) { // observations are not problems
+		// Requests without indices: the active set may have changed while the request ran, so every
+		// active set of the interval is a candidate. The candidate with the lowest score is judged;
+		// "duty of an unrequested validator" / "validator missing" are what a wrong candidate looks like.
+		score := func(ps []problem) (n int) {
 			for _, p := range ps {
-				if p.info == "" {
+				switch {
+				case p.info != "": // observations are not problems
+				case strings.HasSuffix(p.sig, "/duty-for-unrequested-index") || strings.HasSuffix(p.sig, "/validator-duties-missing"):
+					n += 100
+				default:
 					n++
 				}
 			}
 
 			return n
 		}
-		for ci, cand := range cands { // requests without indices: the active set may have changed while the request ran
+		for ci, cand := range cands {
 			p, rd := h.judge(R, cand)
-			if ci == 0 || real(p) < real(probs) {
+			if ci == 0 || score(p) < score(probs) {
 				probs, reads, used = p, rd, cand
 			}
 		}
